@@ -51,6 +51,7 @@ def micro_scenes():
         rows.append(['a', dt, 1000.0 + 5 * i, 1]); rows.append(['b', dt, 1104.0 + 5 * i, 1]); rows.append(['c', dt, 1050.0 + 5 * i, 1])
         if i % 5 == 0:
             rows.append(['b', dt, 9000.0, 2])
+    out.append(('msa-crop-sim3', {'gen': 'rows', 'rows': rows, 'prms': {'MSA': 5000, 'MSA_HIT_BUFFER': 1500}}))
     rows = []
     for i in range(30):
         dt = 10.0 * i                       # non-negative stamps on a 10 s grid (no minus sign between a name and a stamp)
@@ -65,7 +66,6 @@ def micro_scenes():
             rows.append(['a', dt + 3.0, 2100.0 + 2 * i, 1])
         rows.append(['b', dt, 2104.0 + 2 * i, 1] if i != 13 else ['b', dt, None, 0])
     out.append(('unequal-nearly-full', {'gen': 'rows', 'rows': rows}))
-    out.append(('msa-crop-sim3', {'gen': 'rows', 'rows': rows, 'prms': {'MSA': 5000, 'MSA_HIT_BUFFER': 1500}}))
     return out
 
 
